@@ -11,12 +11,12 @@ from . import core
 
 SPEC = core.SPEC / "lock"
 
-INVARIANTS = ["Exclusion", "HeldMeansHeld", "NonBlockingNeverWaits", "NoRecursiveGrant", "Quiescent", "Counters", "NoLostWakeup"]
-ACTIONS = ["TPoolIn", "TAcqSh", "TAcqEx", "TWake", "FdIn", "PlIn", "PAcq", "PKern", "PKGrant", "Body", "PRel", "PlOut", "FdOut", "TRelSh", "TPoolOut"]
+INVARIANTS = ["Exclusion", "HeldMeansHeld", "NonBlockingNeverWaits", "NoRecursiveGrant", "Quiescent", "Counters", "NoLostWakeup", "QuietJustified"]
+ACTIONS = ["TPoolIn", "TAcqSh", "TAcqEx", "TWake", "FdIn", "PlIn", "PAcq", "PKern", "PKGrant", "OpStart", "PRel", "PlOut", "FdOut", "FdClose", "TRelSh", "TPoolOut"]
 PENDING_KIND = {
     "TPoolIn": "lock", "TAcqSh": "rlock", "TAcqEx": "rlock", "TWake": "wake", "FdIn": "lock", "PlIn": "lock",
-    "PAcq": "lock", "PKern": "lockf", "PKGrant": "kwait", "Body": "body", "PRel": "lock", "PlOut": "lock",
-    "FdOut": "lock", "TRelSh": "rlock", "TPoolOut": "lock",
+    "PAcq": "lock", "PKern": "lockf", "PKGrant": "kwait", "OpStart": "body", "PRel": "lock", "PlOut": "lock",
+    "FdOut": "lock", "FdClose": "close", "TRelSh": "rlock", "TPoolOut": "lock",
 }
 
 # (name, NThreads, NProcs, NPaths, Family) -- exhaustive configurations per tier ("for all programs of the family")
@@ -35,9 +35,10 @@ CONFIGS = {
         ("2t2p-2paths-blocking2", 2, 2, 2, "blocking2"),
     ],
 }
+LIVE = {"quick": [("live-2t1p-one", 2, 1, 1, "one")], "thorough": [("live-2t2p-one", 2, 2, 1, "one"), ("live-3t2p-one", 3, 2, 1, "one")]}
 # driver-chosen random programs: (name, NThreads, NProcs, NPaths, max requests, number of program tuples, mode)
 GIVEN = {
-    "quick": [("given-3t2p", 3, 2, 1, 2, 10, "exhaustive"), ("sim-3t2p-2paths", 3, 2, 2, 3, 300, "simulate")],
+    "quick": [("given-3t2p", 3, 2, 1, 2, 10, "exhaustive"), ("sim-3t2p-2paths", 3, 2, 2, 3, 200, "simulate")],
     "thorough": [("given-3t2p", 3, 2, 1, 2, 300, "exhaustive"), ("given-3t2p-2paths", 3, 2, 2, 2, 150, "exhaustive"),
                  ("given-4t2p", 4, 2, 1, 1, 100, "exhaustive"),
                  ("sim-3t2p-2paths", 3, 2, 2, 3, 8000, "simulate"), ("sim-4t2p", 4, 2, 2, 3, 4000, "simulate")],
@@ -52,6 +53,8 @@ def _cfg(d, name, nt, np_, npaths, family, emit=True, rule="own_zero", given=Fal
         "INIT HInitGiven" if given else "INIT HInit", "NEXT HNext", "VIEW View",
     ]
     lines += [f"INVARIANT {i}" for i in INVARIANTS]
+    if name.endswith("-one") and not given:
+        lines.append("INVARIANT EnMatches")
     if emit:
         lines.append("INVARIANT EmitBeh")
     lines.append("CHECK_DEADLOCK FALSE")
@@ -81,9 +84,7 @@ def replay_behaviour(arg):
     rng = random.Random(seed)
     drift = []
     ex = Execution(programs, procof)
-    # advance every thread from "start" to its first acquire-like primitive (no shared state is touched)
-    for t in sorted(programs):
-        ex.sim.step(t)
+    ex.prestart()
 
     def chooser(n, en, ex_):
         if n < len(hist) and not drift:
@@ -141,6 +142,17 @@ def run(tier: str, seed: int, v: core.Verdict):
             got = [b for tag, b in res.prints if tag == "BEH"]
             per_cfg[name] = {"states": res.distinct, "transitions": res.generated, "depth": res.depth, "terminal_witnesses": len(got), "wall_s": round(res.wall, 1)}
             behs += got
+        # liveness under weak fairness (plain spec, no history variable, no constraint)
+        for name, nt, np_, npaths, fam in LIVE[tier]:
+            cfg = _cfg(d, name, nt, np_, npaths, fam, emit=False)
+            txt = cfg.read_text().replace("INIT HInit\nNEXT HNext\nVIEW View\n", "SPECIFICATION FairSpec\nPROPERTY FlatProgramsFinish\n")
+            txt = "\n".join(l for l in txt.splitlines() if not l.startswith("INVARIANT")) + "\n"
+            cfg.write_text(txt)
+            res = core.run_tlc(SPEC / "MCLive.tla", cfg, workers=16, timeout=3600, coverage=False)
+            if res.violated:
+                raise core.MachineryError(f"PathLock.tla [{name}]: liveness FlatProgramsFinish violated under weak fairness")
+            core.require_ok(res, f"PathLock.tla liveness [{name}]")
+            per_cfg[name] = {"liveness": "FlatProgramsFinish under WF holds", "states": res.distinct, "wall_s": round(res.wall, 1)}
         from .c15_lock import PATHS, random_program
 
         for name, nt, np_, npaths, maxreq, num, mode in GIVEN[tier]:
@@ -155,7 +167,7 @@ def run(tier: str, seed: int, v: core.Verdict):
             pf.write_text(json.dumps(tuples))
             cfg = _cfg(d, name, nt, np_, npaths, "one", given=True)
             if mode == "simulate":
-                res = core.run_tlc(SPEC / "MCPathLock.tla", cfg, workers=8, timeout=3000, simulate=f"num={num * 2}", depth=400, seed=seed + 1, coverage=False, env={"PROGS": str(pf)})
+                res = core.run_tlc(SPEC / "MCPathLock.tla", cfg, workers=8, timeout=3000, simulate=f"num={max(1, num // 2)}", depth=400, seed=seed + 1, coverage=False, env={"PROGS": str(pf)})
             else:
                 res = core.run_tlc(SPEC / "MCPathLock.tla", cfg, workers=16, timeout=3600, coverage=False, env={"PROGS": str(pf)})
             if res.violated:
